@@ -24,7 +24,7 @@ ASSUMPTIONS = []
 OPS = [
     "add", "sub", "mul_float", "mul_int", "rmul_float", "lt_img", "gt_num", "eq_img", "le_num", "ge_img",
     "astype_float", "copy", "subregion", "time_slice", "time_interval", "metadata", "weight_float", "weight_int", "weight_image",
-    "weight_image_resized", "weight_array", "stack", "superpose", "refine", "coarsen", "reduce", "extrude", "resize", "zeros_like", "ones_like",
+    "weight_image_resized", "weight_array", "stack", "stack_series", "append_like", "superpose", "refine", "coarsen", "reduce", "extrude", "resize", "zeros_like", "ones_like",
     "clip_model", "linear_model", "combined_model", "integrate", "normalize", "bounding_box", "random_patches", "init_lists", "init_height",
 ]
 
@@ -190,6 +190,16 @@ def run_op(c, op):
     if op == "stack":
         lst = c.t.container(f"stacklist{k}", [A, B])
         return da.stack(lst), np.stack([a, b], axis=2)
+    if op == "stack_series":
+        s = c.series()
+        lst = c.t.container(f"stacklist{k}", [s, A])
+        return da.stack(lst), np.concatenate([s.img, a[..., np.newaxis]], axis=2)
+    if op == "append_like":
+        # the documented way to extend a series without touching the operands: copy, then append
+        s = c.series()
+        out = s.copy()
+        out.append(B, offset=1.0)
+        return out, np.concatenate([s.img, b[..., np.newaxis]], axis=2)
     if op == "superpose":
         # concrete geometry (the perspective matrices are computed by real OpenCV), symbolic pixels
         U = c.t.image(f"U{k}", c.img(f"u{k}", dims=[1.0, 3.0]))
